@@ -93,7 +93,7 @@ Definition wk_ok (w : option wpc) (f : fut) : Prop :=
   | Some _ => f = FRunning
   end.
 Definition holds_s (c : cfg) (w : option wpc) : bool :=
-  match w with Some (WN _ N3) => lk_ntest c || lk_ncall c | _ => false end.
+  match w with Some (WN _ N3) | Some (WN _ N4) => lk_ntest c || lk_ncall c | _ => false end.
 Definition in_startwork (p : cpc) : bool := match p with CSW1 _ | CSW2 _ | CSW3 _ => true | _ => false end.
 Definition mm_needed (p : cpc) : bool := match p with CSW2 _ | CSW3 _ | CSW4 _ => true | _ => false end.
 Definition accepted_pc (p : cpc) : bool := match p with CCreate1 | CGet1 _ _ => true | _ => false end.
@@ -162,7 +162,7 @@ Proof.
     assert (Hacc' : accepted_pc (cpcs s) = false)
       by (destruct (accepted_pc (cpcs s)); [discriminate (Hacc eq_refl)|reflexivity]).
     clear Hsw Hacc.
-    destruct p as [|m [| |]| | | | | |]; unfold free_for, release_w in H; cbn in H, Hwk, Hmx;
+    destruct p as [|m [| | |]| | | | | |]; unfold free_for, release_w in H; cbn in H, Hwk, Hmx;
       split_step H; finish_step H; constructor; unfold working, release_w in *; cbn in *;
       rewrite ?Hsw', ?Hacc', ?Hwk in *; cbn in *;
       try solve [ assumption | reflexivity | discriminate | intros; discriminate
@@ -263,7 +263,7 @@ Proof. intros. constructor; cbn; [constructor|intros t []|intros t; tauto]. Qed.
 Lemma execs_app : forall a b, execs (a ++ b) = execs a ++ execs b.
 Proof. intros; unfold execs; apply flat_map_app. Qed.
 
-Lemma tasks_push : forall (E B : list nat) (Q : list task) n b,
+Lemma tasks_push : forall (E B : list nat) (Q : list task) n (b : outcome),
   NoDup (E ++ B ++ map fst Q) -> (forall t, In t (E ++ B ++ map fst Q) -> t < n) ->
   NoDup (E ++ B ++ map fst (Q ++ [(n, b)])) /\
   (forall t, In t (E ++ B ++ map fst (Q ++ [(n, b)])) <-> n = t \/ In t (E ++ B ++ map fst Q)).
@@ -284,19 +284,28 @@ Proof.
   - split_step H; finish_step H; try (destruct rs); constructor; unfold all_tasks;
       cbn -[execs scheds]; try (match goal with E : queue _ = _ |- _ => rewrite E end);
       try exact Hnd; try exact Hlt; try exact Hsc;
-      try (destruct (tasks_push _ _ _ _ b Hnd Hlt) as [P1 P2];
+      try (match goal with |- context [(next_task s, ?x)] => destruct (tasks_push _ _ _ _ x Hnd Hlt) as [P1 P2] end;
            first [ exact P1
                  | intros t Ht; apply P2 in Ht; destruct Ht as [<-|Ht]; [lia|specialize (Hlt _ Ht); lia]
-                 | intros t; rewrite P2; change (scheds (ESched (next_task s) :: log s)) with (next_task s :: scheds (log s));
-                   cbn [In]; rewrite Hsc; tauto ]);
+                 | intros t; rewrite P2;
+                   match goal with |- In t (scheds ?L) <-> _ =>
+                     change (In t (scheds L)) with (next_task s = t \/ In t (scheds (log s))) end;
+                   rewrite Hsc; tauto ]);
       try (rewrite (ctl_sw c s HC) in Hnd, Hlt, Hsc by (rewrite E; reflexivity);
            first [exact Hnd | exact Hlt | exact Hsc]).
   - destruct (wpcs s) as [p|] eqn:Ew; [|discriminate].
-    destruct p as [|m [| |]| | | | | |]; unfold free_for, release_w in H;
+    destruct p as [|m [| | |]| | | | | |]; unfold free_for, release_w in H;
       split_step H; finish_step H; constructor; unfold all_tasks; cbn -[execs scheds] in *;
       try (match goal with E : queue _ = _ |- _ => rewrite E in * end);
       try exact Hnd; try exact Hlt; try exact Hsc;
-      change (execs (EExec t :: log s)) with (t :: execs (log s));
+      try (match goal with |- context [(next_task s, ?x)] => destruct (tasks_push _ [] _ _ x Hnd Hlt) as [P1 P2] end;
+           first [ exact P1
+                 | intros t Ht; apply P2 in Ht; destruct Ht as [<-|Ht]; [lia|specialize (Hlt _ Ht); lia]
+                 | intros t; rewrite P2;
+                   match goal with |- In t (scheds ?L) <-> _ =>
+                     change (In t (scheds L)) with (next_task s = t \/ In t (scheds (log s))) end;
+                   rewrite Hsc; tauto ]).
+    all: change (execs (EExec t :: log s)) with (t :: execs (log s));
       change (scheds (EExec t :: log s)) with (scheds (log s)).
     + eapply Permutation_NoDup; [|exact Hnd]. apply Permutation_sym, Permutation_middle.
     + intros t0 Ht0. apply Hlt. eapply Permutation_in; [|exact Ht0]. apply Permutation_middle.
@@ -356,17 +365,17 @@ Proof.
   destruct t; step_unfold H.
   - split_step H; finish_step H; try (destruct rs); constructor; cbn in *;
       try assumption; try discriminate; try (intros m; discriminate);
-      try (intros [X|X]; [discriminate X|exact (Hlog X)]);
+      try (intros X; repeat (destruct X as [X|X]; [discriminate X|]); exact (Hlog X));
       try (intros; reflexivity).
     (* CSetHandler false *)
     intros m Hm. exfalso. unfold free_for in *. rewrite Hcl in *. cbn in *.
     pose proof (ctl_mx c s HC) as Hmx. rewrite Hm in Hmx. cbn in Hmx. rewrite Hnt in Hmx. cbn in Hmx.
     rewrite Hmx in *. discriminate.
   - destruct (wpcs s) as [p|] eqn:Ew; [|discriminate].
-    destruct p as [|m [| |]| | | | | |]; unfold free_for, release_w in H; rewrite ?Hnt in H;
+    destruct p as [|m [| | |]| | | | | |]; unfold free_for, release_w in H; rewrite ?Hnt in H;
       split_step H; finish_step H; constructor; cbn in *;
       try assumption; try discriminate; try (intros m0; discriminate);
-      try (intros [X|X]; [discriminate X|exact (Hlog X)]);
+      try (intros X; repeat (destruct X as [X|X]; [discriminate X|]); exact (Hlog X));
       try (intros; assumption);
       try (exfalso; destruct (ctl_n2 c s HC m Ew) as [A _]; congruence);
       try (exfalso; rewrite (Hn3 m eq_refl) in *; discriminate);
@@ -395,17 +404,17 @@ Proof.
   destruct t; step_unfold H.
   - split_step H; finish_step H; try (destruct rs); constructor; cbn -[execs scheds] in *;
       try assumption; try discriminate;
-      try (intros X; right; exact (Hthr X));
-      try (destruct Hmain as [L|R]; [left; right; exact L|right; exact R]);
-      try (destruct Hmain as [L|R]; [left; right; exact L|right; intros; discriminate]).
+      try (intros X; repeat right; exact (Hthr X));
+      try (destruct Hmain as [L|R]; [left; repeat right; exact L|right; exact R]);
+      try (destruct Hmain as [L|R]; [left; repeat right; exact L|right; intros; discriminate]).
   - destruct (wpcs s) as [p|] eqn:Ew; [|discriminate].
-    destruct p as [|m [| |]| | | | | |]; unfold free_for, release_w in H;
+    destruct p as [|m [| | |]| | | | | |]; unfold free_for, release_w in H;
       split_step H; finish_step H; constructor; cbn -[execs scheds] in *;
       try assumption; try discriminate; try (intros; discriminate);
-      try (intros X; right; exact (Hthr X));
-      try (destruct Hmain as [L|R]; [left; right; exact L|right; exact R]);
-      try (destruct Hmain as [L|R]; [left; exact L|right; intros; discriminate]);
-      try (destruct Hmain as [L|R]; [left; right; exact L|right; intros; discriminate]);
+      try (intros X; repeat right; exact (Hthr X));
+      try (destruct Hmain as [L|R]; [left; repeat right; exact L|right; exact R]);
+      try (destruct Hmain as [L|R]; [left; repeat right; exact L|right; intros; discriminate]);
+      try (destruct Hmain as [L|R]; [left; repeat right; exact L|right; intros; discriminate]);
       try (intros _; left; reflexivity);
       try (left; apply Hthr; reflexivity).
     (* WHasP with an empty queue: everything scheduled so far has been executed *)
@@ -458,11 +467,11 @@ Proof.
     pose proof (nb_thr s0 (reach_nb _ _ _ _ A B R0)) as Hthr.
     destruct t; step_unfold Hs.
     + split_step Hs; finish_step Hs; try (destruct rs); cbn in *; split; try assumption; try reflexivity;
-        try (intros [X|X]; [discriminate X|exact (J0 X)]); congruence.
+        try (intros X; repeat (destruct X as [X|X]; [discriminate X|]); exact (J0 X)); congruence.
     + destruct (wpcs s0) as [p|] eqn:Ew; [|discriminate].
-      destruct p as [|m [| |]| | | | | |]; unfold free_for, release_w in Hs;
+      destruct p as [|m [| | |]| | | | | |]; unfold free_for, release_w in Hs;
         split_step Hs; finish_step Hs; cbn in *; split; try assumption; try reflexivity;
-        try (intros [X|X]; [discriminate X|exact (J0 X)]); congruence.
+        try (intros X; repeat (destruct X as [X|X]; [discriminate X|]); exact (J0 X)); congruence.
 Qed.
 
 (** * Notification bracketing (handler installed throughout) *)
@@ -470,6 +479,8 @@ Definition no_seth (cl : call) : bool := match cl with CSetHandler _ => false | 
 
 Definition br_rel (w : option wpc) (b : bst) : Prop :=
   match w with
+  | Some (WN MStart N4) => b = BStarted
+  | Some (WN MResult N4) => b = BResult
   | None | Some WEnter | Some (WN MStart _) => b = BIdle \/ b = BResult
   | Some WNext | Some (WBody _ _) | Some (WN MResult _) => b = BStarted \/ b = BResult
   | Some WHasP | Some WRet | Some WFin => b = BResult
@@ -498,13 +509,18 @@ Proof.
       try discriminate Hsc; constructor; cbn in *; try assumption.
     all: try (rewrite (ctl_sw c s HC) in Hr by (rewrite E; reflexivity); exact Hr).
   - destruct (wpcs s) as [p|] eqn:Ew; [|discriminate].
-    destruct p as [|m [| |]| | | | | |]; unfold free_for, release_w in H; rewrite ?Hh in H;
+    destruct p as [|m [| | |]| | | | | |]; unfold free_for, release_w in H; rewrite ?Hh in H;
       split_step H; finish_step H; constructor; cbn -[bracket_of_log] in *;
       try assumption; try contradiction;
-      rewrite ?bracket_notify;
-      try (destruct Hr as [-> | ->]; cbn; auto);
-      try (rewrite Hr; cbn; auto).
-    right. exact Hr.
+      repeat match goal with
+             | |- context [bracket_of_log (EHEnter ?g :: ?l)] => change (bracket_of_log (EHEnter g :: l)) with (bracket_of_log l)
+             | |- context [bracket_of_log (EHLeave :: ?l)] => change (bracket_of_log (EHLeave :: l)) with (bracket_of_log l)
+             | |- context [bracket_of_log (EDone :: ?l)] => change (bracket_of_log (EDone :: l)) with (bracket_of_log l)
+             | |- context [bracket_of_log (ESched ?t :: ?l)] => change (bracket_of_log (ESched t :: l)) with (bracket_of_log l)
+             | |- context [bracket_of_log (ENotify ?m :: ?l)] => rewrite (bracket_notify m l)
+             end;
+      try solve [destruct Hr as [-> | ->]; cbn; auto];
+      try solve [rewrite Hr; cbn; auto].
 Qed.
 
 (** [notif_bracketed]: with a handler installed throughout, the "deploy" notifications it
@@ -526,18 +542,76 @@ Proof.
   - intros E. rewrite E in Hr. exact Hr.
 Qed.
 
+(** * Handler invocations are mutually exclusive with set_notification_handler *)
+Definition inside_b (w : option wpc) : bool := match w with Some (WN _ N4) => true | _ => false end.
+
+Lemma hcheck_cons : forall e l, hcheck_log (e :: l) = hstep (hcheck_log l) e.
+Proof. intros e l. unfold hcheck_log, hrun. cbn. rewrite fold_left_app. reflexivity. Qed.
+
+Definition hx_inv (s : state) : Prop := hcheck_log (log s) = (hgen s, inside_b (wpcs s), true).
+
+Lemma hx_step : forall c s t s',
+  lk_set c = true -> lk_clear c = true -> lk_ntest c || lk_ncall c = true ->
+  ctl c s -> hx_inv s -> step c s t = Some s' -> hx_inv s'.
+Proof.
+  intros c s t s' Hls Hlc Hln HC HI H. unfold hx_inv in *.
+  destruct t; step_unfold H.
+  - split_step H; finish_step H; try (destruct rs); cbn -[hcheck_log] in *;
+      rewrite ?hcheck_cons, HI; cbn; try reflexivity;
+      try (rewrite (ctl_sw c s HC) by (rewrite E; reflexivity); reflexivity).
+    (* the two set_notification_handler cases: the mutex is free, so no invocation is in progress *)
+    all: unfold free_for in *; rewrite ?Hls, ?Hlc in *; cbn in *;
+      pose proof (ctl_mx c s HC) as Hmx;
+      destruct (wpcs s) as [[|m [| | |]| | | | | |]|]; cbn in *; try reflexivity;
+      rewrite Hln in Hmx; rewrite Hmx in *; discriminate.
+  - destruct (wpcs s) as [p|] eqn:Ew; [|discriminate].
+    destruct p as [|m [| | |]| | | | | |]; unfold free_for, release_w in H;
+      split_step H; finish_step H; cbn -[hcheck_log] in *;
+      rewrite ?hcheck_cons, HI; cbn; rewrite ?Nat.eqb_refl; reflexivity.
+Qed.
+
+(** [handler_excl]: along every schedule, every handler invocation is of the handler installed
+    by the latest set_notification_handler call that has returned, no set_notification_handler
+    call returns while an invocation is in progress (so no invocation of a handler overlaps or
+    follows the return of the call that replaced it), and invocations do not overlap. *)
+Lemma handler_excl_holds : forall c h0 sc s,
+  lk_set c = true -> lk_clear c = true -> lk_ntest c || lk_ncall c = true ->
+  reach c h0 sc s -> hcheck_log (log s) = (hgen s, inside_b (wpcs s), true).
+Proof.
+  intros c h0 sc s A B C H.
+  assert (X : ctl c s /\ hx_inv s); [|exact (proj2 X)].
+  eapply reach_invariant with (P := fun s => ctl c s /\ hx_inv s); eauto.
+  - split; [apply ctl_init|reflexivity].
+  - intros s0 t s1 [D E] Hs. split; [eapply ctl_step|eapply hx_step]; eauto.
+Qed.
+
+(** while an invocation is in progress (or about to start under the lock) the client's
+    set_notification_handler call cannot complete: it waits for Service::mutex_ *)
+Lemma setter_blocked_holds : forall c h0 sc s m b rest,
+  lk_set c = true -> lk_clear c = true -> lk_ntest c || lk_ncall c = true ->
+  reach c h0 sc s -> (wpcs s = Some (WN m N3) \/ wpcs s = Some (WN m N4)) ->
+  cpcs s = CIdle -> script s = CSetHandler b :: rest -> step c s Client = None.
+Proof.
+  intros c h0 sc s m b rest A B C Hr Hw Hc Hs.
+  pose proof (ctl_mx c s (reach_ctl _ _ _ _ Hr)) as Hmx.
+  assert (Hm : smutex s = Some Worker) by (destruct Hw as [E|E]; rewrite E in Hmx; cbn in Hmx; rewrite C in Hmx; exact Hmx).
+  unfold step, step_client. rewrite Hc, Hs. unfold step_call, free_for. cbn. rewrite Hm.
+  destruct b; rewrite ?A, ?B; reflexivity.
+Qed.
+
 (** * Race freedom (lockset): in no reachable state do the worker's and the client's
     next accesses (rows of the generated table) conflict *)
 Local Open Scope string_scope.
 Definition worker_fn (f : string) : bool :=
-  existsb (String.eqb f) ["Deployer::Run"; "Deployer::NextTask"; "Deployer::HasPendingTasks"; "Service::Notify"].
+  existsb (String.eqb f) ["Deployer::Run"; "Deployer::NextTask"; "Deployer::HasPendingTasks"; "Service::Notify";
+                          "Deployer::ScheduleTask"].
 
 Definition row_ok (r : acc_row) : bool :=
   negb (is_data r) ||
   (if String.eqb (a_var r) VQUEUE then
      has_lock DMUTEX r || (String.eqb (a_fn r) "Deployer::StartWork" && akind_eqb (a_kind r) ARead)
    else if String.eqb (a_var r) VHANDLER then has_lock SMUTEX r
-   else if String.eqb (a_var r) VSINK then worker_fn (a_fn r)
+   else if String.eqb (a_var r) VSINK then String.eqb (a_fn r) "Deployer::Run"
    else negb (worker_fn (a_fn r))).
 
 (** the condition on the generated table under which race freedom is proved *)
@@ -550,11 +624,12 @@ Lemma w_acc_fn : forall tbl s a, In a (w_acc tbl s) ->
   In a tbl /\ worker_fn (a_fn a) = true /\ wpcs s <> None.
 Proof.
   intros tbl s a H. unfold w_acc in H. destruct (wpcs s) as [p|]; [|contradiction].
-  destruct p; apply rows_in in H; destruct H as [A B]; rewrite B; repeat split; auto; discriminate.
+  destruct p; rewrite ?in_app_iff in H; repeat (destruct H as [H|H]);
+    apply rows_in in H; destruct H as [A B]; rewrite B; repeat split; auto; discriminate.
 Qed.
 
 Lemma c_acc_fn : forall tbl s b, In b (c_acc tbl s) ->
-  In b tbl /\ worker_fn (a_fn b) = false /\
+  In b tbl /\ String.eqb (a_fn b) "Deployer::Run" = false /\
   (a_fn b = "Deployer::StartWork" -> in_startwork (cpcs s) = true).
 Proof.
   intros tbl s b H. unfold c_acc, call_acc, disabled_rows in H.
@@ -596,7 +671,7 @@ Proof.
   - destruct (String.eqb (a_var a) VHANDLER).
     + rewrite (share_lock_common _ _ _ Oa Ob) in Ns. discriminate.
     + destruct (String.eqb (a_var a) VSINK).
-      * change (worker_fn (a_fn b) = true) in Ob. rewrite Wb in Ob. discriminate.
+      * rewrite Wb in Ob. discriminate.
       * change (negb (worker_fn (a_fn a)) = true) in Oa. rewrite Wa in Oa. discriminate.
 Qed.
 
@@ -727,7 +802,7 @@ Proof.
 Qed.
 
 (** * Non-vacuity *)
-Definition ex_script : list call := [CSyncUser [true; false; true]; CCreate; CJoin; CIsMaint; CCreate].
+Definition ex_script : list call := [CSyncUser [OOk; OThrow; OFail]; CCreate; CJoin; CIsMaint; CCreate].
 
 (** a reachable state meeting the hypotheses of [excl_holds] ... *)
 Example excl_nonvacuous : forall c, exists s,
@@ -749,9 +824,38 @@ Example reopens_nonvacuous : forall c, lk_ntest c = true -> exists s,
   hd_error (log s) = Some (ERet RIsMaint 0).
 Proof.
   intros c Hc.
-  destruct (run_macro c (init true ex_script) (rep 7 Client ++ rep 14 Worker ++ [Client; Client])) as [s|] eqn:E.
+  destruct (run_macro c (init true ex_script) (rep 7 Client ++ rep 16 Worker ++ [Client; Client])) as [s|] eqn:E.
   - exists s. split; [eapply run_macro_reach; [apply reach_init|exact E]|].
     destruct c as [a1 a2 a3 [] [] [] []]; cbn in Hc; try discriminate Hc; vm_compute in E; inversion E; subst; cbn;
       repeat split; auto; intros X; repeat (destruct X as [X|X]; [discriminate X|]); exact X.
   - destruct c as [a1 a2 a3 [] [] [] []]; cbn in Hc; try discriminate Hc; vm_compute in E; discriminate.
+Qed.
+
+(** non-vacuity of [setter_blocked_holds] / [handler_excl_holds]: the worker is inside the
+    handler invocation and the client's next call is set_notification_handler *)
+Definition hx_script : list call := [CSyncUser [OOk; OOk; OOk]; CSetHandler true; CJoin].
+Definition hx_sched : list tid := rep 6 Client ++ rep 3 Worker.
+
+Example setter_blocked_nonvacuous : forall c, lk_ntest c = true -> exists s,
+  reach c true hx_script s /\ wpcs s = Some (WN MStart N4) /\ cpcs s = CIdle /\
+  script s = [CSetHandler true; CJoin] /\ hd_error (log s) = Some (ENotify NStart).
+Proof.
+  intros c Hc. destruct (run_macro c (init true hx_script) hx_sched) as [s|] eqn:E.
+  - exists s. split; [eapply run_macro_reach; [apply reach_init|exact E]|].
+    destruct c as [a1 a2 a3 [] [] [] []]; cbn in Hc; try discriminate Hc; vm_compute in E; inversion E; subst; cbn; auto.
+  - destruct c as [a1 a2 a3 [] [] [] []]; cbn in Hc; try discriminate Hc; vm_compute in E; discriminate.
+Qed.
+
+(** without the lock around the call the clause is false of the model: the setter returns
+    while the invocation of the handler it replaced is still in progress *)
+Definition cfg_call_unlocked : cfg :=
+  {| lk_sched := true; lk_next := true; lk_hasp := true; lk_set := true; lk_clear := true;
+     lk_ntest := false; lk_ncall := false |}.
+Lemma handler_excl_unlocked_refuted : exists s,
+  reach cfg_call_unlocked true hx_script s /\ snd (hcheck_log (log s)) = false.
+Proof.
+  destruct (run_macro cfg_call_unlocked (init true hx_script) (hx_sched ++ [Client])) as [s|] eqn:E;
+    [|vm_compute in E; discriminate].
+  exists s. split; [eapply run_macro_reach; [apply reach_init|exact E]|].
+  vm_compute in E. inversion E; subst. vm_compute. reflexivity.
 Qed.
